@@ -242,7 +242,7 @@ PROPS = {
                    "with fenced phases (HostFence / HostBarrier). Oracle: exactly-once, per-stream FIFO, routing, deserialised values equal and all bytes consumed (at whatever alignment the aggregation schedule produced), "
                    "nothing of a phase arrives after its fence. Faults: message delay, lazy Iprobe/Test, host stalls, clock jumps (aggregation time-out), spurious weak-CAS failure.",
         level_note="Sampling over seeds. MPI itself is a stub that keeps the standard's guarantees (reliable, non-overtaking per pair); loss/duplication/corruption are not injected because the code makes no promise about them.",
-        **tiers(1500, 170, 40000, 2400, run_timeout_s=300)),
+        **tiers(1500, 110, 40000, 2400, run_timeout_s=300)),
     "C19": dict(
         jobs=[dict(harness="c18_gluon", variant="a", weight=2, build=dist_build(libs=("libgalois", "libdist", "libgluon", "simmpi")), params={"mode": 0}),
               dict(harness="c18_gluon", variant="n", weight=1, build=dist_build(libs=("libgalois", "libdist", "libgluon", "simmpi")), params={"mode": 0})],
